@@ -37,6 +37,10 @@ func c02(c *Ctx) {
 	// entries replayed into the FSM at start-up (RestoreCommittedLogs) are the
 	// ones whose commit was staged: never the follower's own unreplicated tail
 	c10R5(c, "R11/C10.R5")
+	// a leader whose local write failed must step down and drop the in-flight
+	// futures: otherwise the next entries reuse the indexes and the leader's FSM
+	// is handed the payload of the failed command (round-7 seed C02-N)
+	sDurable(c, "R12/S-DURABLE")
 }
 
 func c02R1(c *Ctx, rule string) {
